@@ -24,7 +24,7 @@ def resolveActor (c : Ctx) (s : Sess) (asUser : Option (Uid × String)) : Except
   match asUser with
   | none => .ok { sid := s.sid, sessUid := s.uid, uid := s.uid, lvl := s.lvl, bg := s.bg }
   | some (u, lv) =>
-    if s.lvl ≠ .root then .error (c.emit s.sid (ctrl 403 "-"))
+    if s.lvl ≠ .root ∨ s.out then .error (c.emit s.sid (ctrl 403 "-"))
     else if (c.w.user? u).isNone ∧ !u.startsWith "U" then .error (c.emit s.sid (ctrl 400 "-"))
     else .ok { sid := s.sid, sessUid := s.uid, uid := u, lvl := if lv = "" then .auth else levelOfStr lv, bg := s.bg }
 
